@@ -89,6 +89,17 @@ class ProgramMFA(flodym.MFASystem):
         if op == "sumto":
             a = self._ev(e["a"])
             return a.sum_to(tuple(e["dims"])) if e.get("by", "letters") == "letters" else a.sum_to(tuple(NAMES[l] for l in e["dims"]))
+        if op == "get":
+            a = self._ev(e["a"])
+            items = self._items
+            sp = e.get("sp", "letter")
+            if sp == "letter":
+                return a[{l: items[l][i - 1] for l, i in e["key"]}]
+            if sp == "name":
+                return a[{NAMES[l]: items[l][i - 1] for l, i in e["key"]}]
+            return a[tuple(items[l][i - 1] for l, i in e["key"])] if len(e["key"]) > 1 else a[items[e["key"][0][0]][e["key"][0][1] - 1]]
+        if op == "cumsum":
+            return self._ev(e["a"]).cumsum(dim_letter=e["l"])
         if op == "scale":
             k = e["k"][0] / e["k"][1]
             return self._ev(e["a"]) * k if e.get("side", "r") == "r" else k * self._ev(e["a"])
@@ -104,6 +115,10 @@ class ProgramMFA(flodym.MFASystem):
                 self.stocks[self._model["stocks"][stmt["id"] - 1]["name"]].inflow[...] = self._ev(stmt["e"])
             elif op == "sout":
                 self.stocks[self._model["stocks"][stmt["id"] - 1]["name"]].outflow[...] = self._ev(stmt["e"])
+            elif op == "slev":
+                self.stocks[self._model["stocks"][stmt["id"] - 1]["name"]].stock[...] = self._ev(stmt["e"])
+            elif op == "flowkey":
+                self.flows[self._model["flows"][stmt["id"] - 1]["name"]][{l: self._items[l][i - 1] for l, i in stmt["key"]}] = self._ev(stmt["e"])
             else:
                 self.stocks[self._model["stocks"][stmt["id"] - 1]["name"]].compute()
 
@@ -174,6 +189,10 @@ class Program:
                 return dims_of(e["a"])
             if op == "sumto":
                 return list(e["dims"])
+            if op == "cumsum":
+                return dims_of(e["a"])
+            if op == "get":
+                return [l for l in dims_of(e["a"]) if l not in [k[0] for k in e["key"]]]
             a, b = dims_of(e["a"]), dims_of(e["b"])
             if op == "mul":
                 return a + [l for l in b if l not in a]
@@ -197,10 +216,44 @@ class Program:
         cur = new_flow(1, 2, target_dims(e, need_t=True), e)
         for p in range(2, nproc + 2):
             nxt = p + 1 if p < nproc + 1 else 1
-            kind = rnd.choice(["split", "stock", "stock", "pass", "wild"] if not self.conserving else ["split", "stock", "stock", "pass"])
+            kind = rnd.choice(["split", "stock", "stock", "pass", "wild", "sdsm", "loop"] if not self.conserving
+                              else ["split", "stock", "stock", "pass", "sdsm", "loop"])
             have = dims_of(cur)
-            if kind == "stock" and "t" not in have:
+            if kind in ("stock", "sdsm") and "t" not in have:
                 kind = "split"
+            if kind == "loop" and len(have) < 2:
+                kind = "split"
+            if kind == "loop":
+                # a flow written item by item (as model code loops over regions): every item of one dimension gets its own share of the
+                # inflow; the remainder goes on
+                l = rnd.choice([x for x in have if x != "t"] or have)
+                fd = target_dims(cur)
+                if l not in fd:
+                    fd.insert(rnd.randrange(len(fd) + 1), l)
+                a_to = rnd.choice([1, nxt])
+                flows.append({"name": f"{procs[p - 1]} => {procs[a_to - 1]} (by {NAMES[l].lower()}) #{len(flows) + 1}", "from": p, "to": a_to, "dims": fd})
+                fid = len(flows)
+                for i in self.U["items"][l]:
+                    part = {"op": "scale", "a": {"op": "get", "a": cur, "key": [[l, i]], "sp": rnd.choice(["letter", "name", "item"])},
+                            "k": [rnd.choice([0, 1, 1, 3]), rnd.choice([1, 2, 4])], "side": rnd.choice(["l", "r"])}
+                    prog.append({"op": "flowkey", "id": fid, "key": [[l, i]], "e": part})
+                rest = {"op": "sub", "a": cur, "b": {"op": "f", "id": fid}}
+                cur = new_flow(p, nxt, target_dims(rest), rest)
+                continue
+            if kind == "sdsm":
+                # a stock prescribed by a demand parameter; what the inflow from upstream does not cover comes from the environment
+                sds = ["t"] + [x for x in self.sub_dims(have, lo=max(1, len(have) - 1)) if x != "t"]
+                dem = new_param(list(sds) if rnd.random() < 0.5 else ["t"] + rnd.sample(sds[1:], len(sds) - 1), "src")
+                stocks.append({"name": f"stock{len(stocks) + 1}", "proc": p, "dims": sds, "kind": "sdsm",
+                               "setting": rnd.choice(["start", "middle", "end", "gl2"]), "solver": rnd.choice(["manual", "lapack"])})
+                sid = len(stocks)
+                prog.append({"op": "slev", "id": sid, "e": dem if rnd.random() < 0.6 else {"op": "cumsum", "a": dem, "l": "t"}})
+                prog.append({"op": "scompute", "id": sid})
+                extra = {"op": "sub", "a": {"op": "sin", "id": sid}, "b": cur}
+                new_flow(1, p, target_dims(extra), extra)
+                so = {"op": "sout", "id": sid}
+                cur = new_flow(p, nxt, target_dims(so), so)
+                continue
             if kind == "split":
                 c = new_param(self.sub_dims(canon, lo=1), "mask")
                 part = {"op": "mul", "a": cur, "b": c}
@@ -230,6 +283,7 @@ class Program:
             else:
                 c = new_param(self.sub_dims(canon, lo=1), "coef")
                 e = rnd.choice([{"op": "mul", "a": cur, "b": c}, {"op": "add", "a": cur, "b": {"op": "mul", "a": cur, "b": c}},
+                                {"op": "cumsum", "a": cur, "l": rnd.choice(have)},
                                 {"op": "neg", "a": cur}, {"op": "scale", "a": cur, "k": [rnd.choice([1, 3]), rnd.choice([2, 4])], "side": "l"}])
                 cur = new_flow(p, nxt, target_dims(e), e)
         if not self.conserving:
@@ -254,7 +308,14 @@ class Program:
             else:
                 vals = [rnd.randint(0, 6) for _ in range(size)]
             self.prm0[p["name"]] = np.array(vals, dtype=float).reshape(self.shape(p["dims"]))
-        self.life8 = [rnd.randint(4, 8 * rnd.choice([2, 6, 14])) for _ in stocks]
+        self.life8 = [self.rand_life(s) for s in stocks]
+
+    def rand_life(self, s):
+        """lifetime in eighths of a year; a stock-driven model needs a non-zero survival share in every first interval"""
+        steps = [b - a for a, b in zip(self.grid, self.grid[1:])]
+        dtmax = max([steps[0], steps[-1]] + [(a + b) // 2 for a, b in zip(steps, steps[1:])])
+        lo = 8 * dtmax + 8 if s["kind"] == "sdsm" else 4
+        return self.rnd.randint(lo, lo + 8 * self.rnd.choice([2, 6, 14]))
 
     # ------------------------------------------------------------------ the real system
     def definition(self):
@@ -268,9 +329,11 @@ class Program:
         stocks = []
         for s in m["stocks"]:
             kw = dict(name=s["name"], dim_letters=tuple(s["dims"]), time_letter="t",
-                      subclass=flodym.InflowDrivenDSM if s["kind"] == "dsm" else flodym.SimpleFlowDrivenStock)
-            if s["kind"] == "dsm":
+                      subclass={"dsm": flodym.InflowDrivenDSM, "sdsm": flodym.StockDrivenDSM, "simple": flodym.SimpleFlowDrivenStock}[s["kind"]])
+            if s["kind"] in ("dsm", "sdsm"):
                 kw["lifetime_model_class"] = flodym.FixedLifetime
+            if s["kind"] == "sdsm":
+                kw["solver"] = s.get("solver", "manual")
             if s["proc"]:
                 kw["process"] = m["procs"][s["proc"] - 1]
             stocks.append(flodym.StockDefinition(**kw))
@@ -306,9 +369,10 @@ class Program:
             df, pf = self.write_files(excel=(route == "excel"))
             mfa = (ProgramMFA.from_excel if route == "excel" else ProgramMFA.from_csv)(definition, dimension_files=df, parameter_files=pf)
         mfa._model = self.model
+        mfa._items = self.items
         self.mfa, self.route = mfa, route
         for s, l8 in zip(self.model["stocks"], self.life8):
-            if s["kind"] != "dsm":
+            if s["kind"] not in ("dsm", "sdsm"):
                 continue
             lm = mfa.stocks[s["name"]].lifetime_model
             if s["setting"] == "gl2":
@@ -320,7 +384,8 @@ class Program:
                 "flows": [{"name": f.name, "from": f.from_process.name, "to": f.to_process.name, "dims": list(f.dims.letters)}
                           for f in mfa.flows.values()],
                 "stocks": [{"name": s.name, "proc": s.process.name if s.process is not None else "", "dims": list(s.dims.letters),
-                            "kind": "dsm" if isinstance(s, flodym.InflowDrivenDSM) else ("simple" if isinstance(s, flodym.SimpleFlowDrivenStock) else "?")}
+                            "kind": "dsm" if isinstance(s, flodym.InflowDrivenDSM) else ("sdsm" if isinstance(s, flodym.StockDrivenDSM) else
+                                                                                  ("simple" if isinstance(s, flodym.SimpleFlowDrivenStock) else "?"))}
                            for s in mfa.stocks.values()],
                 "params": [{"name": n, "dims": list(p.dims.letters)} for n, p in mfa.parameters.items()]}
         self.ev(op="build", sys=sysj, route=route)
@@ -374,12 +439,12 @@ class Program:
 
     def do_set_life(self):
         rnd = self.rnd
-        cand = [k for k, s in enumerate(self.model["stocks"]) if s["kind"] == "dsm"]
+        cand = [k for k, s in enumerate(self.model["stocks"]) if s["kind"] in ("dsm", "sdsm")]
         if not cand:
             return
         k = rnd.choice(cand)
         s = self.model["stocks"][k]
-        l8 = rnd.randint(4, 8 * rnd.choice([2, 6, 14]))
+        l8 = self.rand_life(s)
         lm = self.mfa.stocks[s["name"]].lifetime_model
         form = rnd.choice(["scalar", "array", "ndarray"])
         if form == "scalar":
